@@ -420,7 +420,18 @@ func checkCli(c CliCase) error {
 	if toFile {
 		args = append(args, "-o", "pruned.nw")
 	}
-	r := cli.Run(dir, input, args...)
+	// the input stream on stdin, in a file, in a gzip file or as a Nexus document
+	extra, stdin, infiles, used := cli.Present(cli.InModes[(len(c.Names)+len(input))%len(cli.InModes)], input, "-i")
+	for n, content := range infiles {
+		cli.Write(dir, n, content)
+	}
+	if cli.IsNexus(used) && c.Mode == "comp" {
+		// --format applies to the compared tree as well
+		d, _ := cli.ToNexus(cli.Read(dir, "comp.nw"), false)
+		cli.Write(dir, "comp.nw", d)
+	}
+	args = append(args, extra...)
+	r := cli.Run(dir, stdin, args...)
 	ctx := fmt.Sprintf(" (gotree %v on\n%s)", args, input)
 	if r.Code != 0 || r.TimedOut {
 		return fmt.Errorf("command failed with status %d: %s%s", r.Code, r.Stderr, ctx)
@@ -461,7 +472,7 @@ func trim(s string) string {
 func TestC06Cli(t *testing.T) {
 	h.Run(t, h.Spec[CliCase]{
 		Property: "C06", Name: "cli", Quick: 2400, Thorough: 48000,
-		Rule: "the same trees and removal sets through `gotree prune`: tips as arguments, -f tip file (one name per line, comma-separated on one line, or one long line in which a drawn name straddles byte 4096 / 8192 / 65536), -c compared tree (tips absent from it are removed), each with and without -r; half of the inputs are streams of 2-3 trees with different tip sets, each of which must be pruned on its own; every printed tree is compared with the induced subtree of the reference model; non-trivial = >= 1 tip removed and >= 1 multifurcation or rooted tree",
+		Rule: "the same trees and removal sets through `gotree prune`: tips as arguments, -f tip file (one name per line, comma-separated on one line, or one long line in which a drawn name straddles byte 4096 / 8192 / 65536), -c compared tree (tips absent from it are removed), each with and without -r, the input stream on stdin, in a file, in a gzip file or as a Nexus document (--format nexus, the compared tree too); half of the inputs are streams of 2-3 trees with different tip sets, each of which must be pruned on its own; every printed tree is compared with the induced subtree of the reference model; non-trivial = >= 1 tip removed and >= 1 multifurcation or rooted tree",
 		Gen: func(t *rapid.T, thorough bool) CliCase {
 			c := CliCase{Case: genCase(t, false), Mode: rapid.SampledFrom([]string{"args", "file", "comp"}).Draw(t, "mode")}
 			if c.Mode == "args" && len(c.Names) == 0 {
